@@ -83,6 +83,7 @@ class AsyncHTTP2Connection(AsyncConnectionInterface):
         self._connection_terminated: h2.events.ConnectionTerminated | None = None
 
         self._read_exception: Exception | None = None
+        self._reads_completed = 0
         self._write_exception: Exception | None = None
 
     async def handle_async_request(self, request: Request) -> Response:
@@ -384,6 +385,10 @@ class AsyncHTTP2Connection(AsyncConnectionInterface):
         Read some data from the network until we see one or more events
         for a given stream ID.
         """
+        # Take note of how much incoming data had been handled at the point
+        # that we start waiting for the read lock.
+        reads_completed = self._reads_completed
+
         async with self._read_lock:
             if self._connection_terminated is not None:
                 last_stream_id = self._connection_terminated.last_stream_id
@@ -407,8 +412,18 @@ class AsyncHTTP2Connection(AsyncConnectionInterface):
             else:
                 read_required = stream_id is None or not self._events.get(stream_id)
 
+            if read_required and reads_completed != self._reads_completed:
+                # Incoming data has been handled while we were waiting for the
+                # read lock. Flows of control that are queued for the lock
+                # behind us may now have what they were waiting for. They need
+                # to get a look in before we block on reading data, because
+                # the server might not send any until they have moved on.
+                # Our caller will call us again, at the back of the queue.
+                read_required = False
+
             if read_required:
                 events = await self._read_incoming_data(request)
+                self._reads_completed += 1
                 for event in events:
                     if isinstance(event, h2.events.RemoteSettingsChanged):
                         async with Trace(
